@@ -110,6 +110,11 @@ def instrument_and_run(fn, src, recipe, script, config):
     from ptera.overlay import BaseOverlay
 
     f, glb = PR.load(src)
+    if fn.get("closure"):
+        # the function object only lives in the factory's return value, not under its own
+        # name in the module namespace
+        glb["f_alias"] = glb.pop("f")
+    names_before = set(glb)
     original = f.__code__
     kind = config[0]
     problems = []
@@ -145,6 +150,11 @@ def instrument_and_run(fn, src, recipe, script, config):
                 problems.append("after the probe block f.__code__ is not the original code object")
         else:
             raise ValueError(config)
+        stray = sorted(n for n in set(glb) - names_before
+                       if not (n.startswith("__ptera_") or n.startswith("_ptera__") or n.startswith("#")))
+        if stray:
+            problems.append(f"instrumentation left new names in the module namespace: {stray} "
+                            f"(values {[glb[n] for n in stray]!r})")
     finally:
         if HY.global_state_problems():
             HY.force_global_clean()
